@@ -95,11 +95,110 @@ def eval_catalogue_names(case):
         v.append(('catalogue/listing-writable', 'list_instances() view accepted an assignment'))
     except Exception:
         pass
+    # history: results belong to the caller - editing them does not change what the catalogue answers next
+    first = ORDER[0]
+    mine = cat.get_instance_capacities(instance_type=first)
+    mine.core += 100
+    mine.ram = 0
+    for c_ in cat.list_instances().values():
+        c_.disk = 0
+    again = InstanceCatalog().get_instance_capacities(instance_type=first)
+    if again is None or any(getattr(again, d) != SIZES[first][d] for d in DIMS):
+        v.append(('catalogue/result-edit-changes-catalogue', f'after editing earlier results {first} reads {again}, file says {SIZES[first]}'))
+    got = InstanceCatalog().map_capacities_to_instance(cap=Capacities(**SIZES[first]))
+    if got != first:
+        v.append(('catalogue/result-edit-changes-sizing', f'after editing earlier results the exact request {SIZES[first]} maps to {got}'))
+    ic_mod.InstanceCatalog._InstanceCatalog__catalog_instance = None      # this worker goes on with a freshly loaded catalogue
     return {'v': v, 'nt': ('names', len(SIZES)), 'out': 'names'}
 
 
+# ------------------------------------------------------------------------------------------ environment faults while loading
+FAULTS = ('open-fails', 'read-fails', 'short-read')
+
+
+class _FaultyFile:
+    def __init__(self, path, kind):
+        self._f, self._kind = open(path), kind
+
+    def read(self, *a):
+        if self._kind == 'read-fails':
+            raise OSError(5, 'Input/output error (injected)')
+        data = self._f.read()
+        return data[:len(data) // 2]
+
+    def __enter__(self):
+        return self
+
+    def __exit__(self, *a):
+        self._f.close()
+        return False
+
+
+def _digest(which):
+    """everything the catalogue answers, as plain data; an exception is part of the answer"""
+    out = []
+    if which == 'instance':
+        cat = InstanceCatalog()
+        try:
+            out.append(sorted((k, str(v)) for k, v in cat.list_instances().items()))
+            out.append(cat.map_capacities_to_instance(cap=Capacities(core=2, ram=8, disk=10)))
+        except Exception as e:
+            out.append(f'raises {type(e).__name__}')
+        return out
+    cat = ComponentCatalog()
+    for c in CATALOG:
+        try:
+            cs = cat.generate_component(name='c1', ctype=ComponentType[c['Type']], model=c['Model'])
+            nsi = cs.network_service_info
+            out.append((str(cs.get_type()), cs.get_model(), cs.get_details(),
+                        sorted(i for ns in (nsi.network_services.values() if nsi else []) for i in ns.interface_info.interfaces)))
+        except Exception as e:
+            out.append(f'{c["Model"]}: raises {type(e).__name__}')
+    for t in ComponentType:
+        try:
+            out.append(sorted(dict(cat.search_catalog(ctype=t)).items()))
+        except Exception as e:
+            out.append(f'search {t}: raises {type(e).__name__}')
+    return out
+
+
+def eval_fault(case):
+    """the first load of a catalogue file meets one environment fault; the caller tries again once the fault is gone"""
+    which, fault = case
+    mod = ic_mod if which == 'instance' else cc_mod
+
+    def reset():
+        if which == 'instance':
+            ic_mod.InstanceCatalog._InstanceCatalog__catalog_instance = None
+        else:
+            cc_mod.ComponentCatalog.catalog_instance = None
+    v = []
+    reset()
+    want = _digest(which)
+    reset()
+
+    def faulty_open(path, *a, **kw):
+        if fault == 'open-fails':
+            raise OSError(24, 'Too many open files (injected)')
+        return _FaultyFile(path, fault)
+    mod.open = faulty_open
+    try:
+        first = _digest(which)
+    finally:
+        del mod.open
+    if first == want:
+        v.append((f'faults/{which}/fault-not-injected', f'{fault}: the load did not go through the intercepted open()'))
+    after = _digest(which)
+    if after != want:
+        diff = [(a, b) for a, b in zip(want, after) if a != b][:2]
+        v.append((f'faults/{which}/failed-load-sticks', f'after a load that met {fault}, a retry without the fault answers differently '
+                                                        f'from a fault-free process: {str(diff)[:300]}'))
+    reset()
+    return {'v': v, 'nt': tuple(case), 'out': f'{which}:{fault}'}
+
+
 # ------------------------------------------------------------------------------------------ components
-LABEL_FORMS = ('none', 'scalar', 'list1', 'list4', 'nobdf')
+LABEL_FORMS = ('none', 'scalar', 'list1', 'list4', 'nobdf', 'shared')   # shared: ONE scalar Labels object passed for every port
 
 
 def mk_labels(form, k):
@@ -206,7 +305,11 @@ def eval_component(case):
         if ids:
             kw.update(interface_node_ids=[f'if-{k}' for k in range(len(ports))], ns_node_id='ns-id')
         if lab != 'none':
-            labels = [mk_labels(lab, k) for k in range(len(ports))]
+            if lab == 'shared':
+                one = mk_labels('scalar', 0)
+                labels = [one for _ in ports]
+            else:
+                labels = [mk_labels(lab, k) for k in range(len(ports))]
             kw.update(interface_labels=labels)
     fp = f'{c["Type"]}/{c["Model"]}'
 
@@ -276,7 +379,10 @@ def eval_component(case):
         if L.local_name != want_local:
             bad('local-name', f'{p}: {L.local_name!r} expected {want_local!r}')
         if labels is not None:
-            src = mk_labels(lab, k)
+            src = mk_labels('scalar', 0) if lab == 'shared' else mk_labels(lab, k)
+            # the caller's label objects are the caller's: generating a component does not write into them
+            if labels[k].__dict__ != src.__dict__:
+                bad('caller-labels-modified', f'{p}: the Labels object passed in is now {labels[k]} (was {src})')
             for f in ('bdf', 'mac', 'vlan_range'):
                 if getattr(L, f) != getattr(src, f):
                     bad('label-placement', f'{p}: {f}={getattr(L, f)!r} expected {getattr(src, f)!r}')
@@ -288,7 +394,7 @@ def eval_component(case):
     return {'v': v, 'nt': tuple(case), 'out': f'{c["Type"]}:{lab}'}
 
 
-REPLAY = {'requests': eval_requests, 'names': eval_catalogue_names, 'components': eval_component}
+REPLAY = {'requests': eval_requests, 'names': eval_catalogue_names, 'components': eval_component, 'faults': eval_fault}
 
 
 def run(report):
@@ -314,5 +420,9 @@ def run(report):
                             'wrong-argument-count probes')
     report.require(any(k.endswith(':list4') for k in gc['outcomes']) and any(k.endswith(':scalar') for k in gc['outcomes']),
                    'scalar and list label forms on components with interfaces')
+    explore_cases(report, 'faults', eval_fault, [(w, f) for w in ('component', 'instance') for f in FAULTS], chunk=1, workers=1,
+                  rule='deviation bound 1 on the environment of the catalogue loaders: the load of each data file meets one fault at each '
+                       'of its environment calls (open() fails | read() fails | read() returns half the file), then the same process '
+                       'asks again without a fault; every answer (all components, searches, sizes) must equal the fault-free ones')
     report.assumptions.append('interface ids supplied without labels, and labels supplied without ids in a different count, are '
                               'argument-count error paths (must raise or are unspecified) and not part of the generated-tree oracle')
